@@ -72,36 +72,18 @@ Proof.
   rewrite (window_is_recent_headers batch K s0 s gh [] Hb Hg Hc Hw H). rewrite app_nil_r. reflexivity.
 Qed.
 
-(* Fault-free round-robin runs (n unit-weight validators, thresholds floor(2n/3)+1, every header carries the node's own
-   maxHeightPrevoted and maxHeightGenerated = the generator's previous height): block j is prevoted once block
-   j+thr-1 is applied and final once block j+2*thr-1 is applied (a precommit needs the prevote quorum to be visible first) — "within two voting quorums of blocks".
-   PARTIAL: proved for every n in 1..12 and every chain length up to 60 by evaluation of the model (finite domain, bound in
-   the statement); the statement for all n is not proved. It also serves as non-vacuity for the theorems above. *)
-Definition rr_header (n : N) (s : store) (h : N) : hdr :=
-  {| h_height := h; h_gen := 1 + (h - 1) mod n; h_mhg := if h <=? n then 0 else h - n;
-     h_mhp := v_mhp (s_votes s); h_cert := None |}.
-Fixpoint rr_loop (batch : nat) (n thr : N) (fuel : nat) (h : N) (s : store) : bool :=
-  match fuel with
-  | O => true
-  | S f =>
-    let b := rr_header n s h in
-    bft_valid s b &&
-    match apply_block batch s (b, None) with
-    | Error _ => false
-    | Ok s' =>
-      (v_mhp (s_votes s') =? (if h <? thr then 0 else h - (thr - 1))) &&
-      (v_mhpc (s_votes s') =? (if h <? 2 * thr then 0 else h - (2 * thr - 1))) &&
-      rr_loop batch n thr f (h + 1) s'
-    end
-  end.
-Definition rr_ok (n : N) : bool :=
-  let thr := 2 * n / 3 + 1 in
-  match init_store (N.to_nat n) 0 {| c_pc := thr; c_cert := thr; c_vals := map (fun a => (a, 1)) (map N.of_nat (seq 1 (N.to_nat n))) |} with
-  | Error _ => false
-  | Ok s0 => rr_loop (N.to_nat n) n thr 60 1 s0
-  end.
-Theorem C02_round_robin_finality_partial : forall n, In n (map N.of_nat (seq 1 12)) -> rr_ok n = true.
-Proof. intros n H. cbn in H. repeat (destruct H as [<-|H]; [vm_compute; reflexivity|]). contradiction. Qed.
+(* Fault-free round-robin runs, for EVERY number n >= 1 of unit-weight validators (thresholds floor(2n/3)+1, batch = n) and
+   every chain length: every header carries the node's own maxHeightPrevoted and maxHeightGenerated = the generator's previous
+   height (h - n, 0 for h <= n); [rr_run n fuel] (BFT/RoundRobin.v) applies [fuel] such blocks and checks after each block h that
+   the block is accepted by both BFT rules, maxHeightPrevoted = h-(thr-1) (0 before) and maxHeightPrecommitted = h-(2*thr-1)
+   (0 before): block j is prevoted once block j+thr-1 is applied and final once block j+2*thr-1 is applied — "within two voting
+   quorums of blocks" (a precommit needs the prevote quorum to be visible first). Proof: closed-form window invariant
+   (prevote weight of entry e = min(h+1-e, n), precommit weight = min(h+1-e-thr, n)). Also non-vacuity for the theorems above. *)
+From LE Require Import BFT.RoundRobin.
+Theorem C02_round_robin_finality : forall n fuel, 1 <= n -> rr_run n fuel = true.
+Proof. exact RoundRobin.C02_round_robin_finality. Qed.
+Example C02_round_robin_example : rr_run 4 40 = true /\ rr_run 7 30 = true.
+Proof. split; vm_compute; reflexivity. Qed.
 
 (* ------------------------------------------------------------------ generator keys (SetGeneratorKeys / GetGeneratorKeys /
    deleteGeneratorKeys / Generators.AtTimestamp) and convert.go *)
